@@ -160,12 +160,18 @@ where
                 Some(DateToken::Literal(ref s))
                     if { s.to_lowercase() == "bc" || s.to_lowercase() == "bce" } =>
                 {
-                    match out.year.map(|x| 1i32.checked_sub(x)) {
-                        Some(None) => Err(format!("Expected year, got out of range value")),
-                        year => {
-                            out.year = year.flatten();
+                    // BC counts back from the year 1, so it needs a year,
+                    // and a positive one: there is no year 0 BC.
+                    match out
+                        .year
+                        .filter(|&year| year >= 1)
+                        .and_then(|year| 1i32.checked_sub(year))
+                    {
+                        Some(year) => {
+                            out.year = Some(year);
                             Ok(())
                         }
+                        None => Err(format!("Expected a positive year before BC")),
                     }
                 }
                 x => Err(format!("Expected AD/BC or CE/BCE, got {}", ts(x))),
